@@ -14,6 +14,8 @@ pub enum TOp {
     Reset,
     /// continue with a clone of the instance
     CloneSwap,
+    /// `instance.clone_from(&other)` where other is an instance of the same kind with different periods
+    CloneFromOther,
     Display,
     Debug,
     Serialize,
@@ -84,6 +86,19 @@ pub fn check(c: &Case, ctx: &mut Ctx) -> Result<(), Failure> {
                     }
                     Err(e) => ("clone", Err(e)),
                 }
+            }
+            TOp::CloneFromOther => {
+                fp.u(6);
+                let mut oc = c.cfg.clone();
+                for p in oc.p.iter_mut() {
+                    *p = *p % 61 + 2;
+                }
+                let r = guarded(|| {
+                    let mut other = Ind::build(k, &oc.params()).expect("HARNESS: other cfg");
+                    let _ = feed(&mut other, &letter(3.0));
+                    ind.clone_from_same(&other);
+                });
+                ("clone_from", r)
             }
             TOp::Display => {
                 fp.u(3);
@@ -220,6 +235,7 @@ fn strategy(cap: usize, maxops: usize) -> BoxedStrategy<Case> {
                 20 => inp_finite().prop_map(TOp::Next),
                 2 => Just(TOp::Reset),
                 1 => Just(TOp::CloneSwap),
+                1 => Just(TOp::CloneFromOther),
                 1 => Just(TOp::Display),
                 1 => Just(TOp::Debug),
                 1 => Just(TOp::Serialize),
@@ -282,6 +298,29 @@ pub fn run(g: &mut Global) {
             let n = BIGP[(r % 14) as usize];
             let kind = ALL_KINDS[(r / 14) as usize];
             sweep_case(kind, n, s, if ph == 7 { n / 2 } else { ph })
+        },
+        &check,
+    );
+    // a reset 0..7 calls before the call count reaches a power of two (2^8 .. 2^16), then the refill:
+    // periodic maintenance keyed to a lifetime call counter lands inside a warm-up it did not expect
+    g.exhaustive(
+        "reset_before_pow2",
+        22 * 3 * 9 * 8,
+        &|i| {
+            let d = (i % 8) as usize;
+            let r = i / 8;
+            let pw = [256usize, 512, 1024, 2048, 4096, 8192, 16_384, 32_768, 65_536][(r % 9) as usize];
+            let r = r / 9;
+            let n = [3usize, 6, 14][(r % 3) as usize];
+            let kind = ALL_KINDS[(r / 3) as usize];
+            let mut ops: Vec<TOp> = Vec::with_capacity(pw + 40);
+            for c in 0..pw + 2 * n + 8 {
+                if c + d + 1 == pw {
+                    ops.push(TOp::Reset);
+                }
+                ops.push(TOp::Next(Inp { bar: RawBar { o: sched_value(0, c * 5), h: sched_value(0, c * 5 + 1) + 3.0, l: sched_value(0, c * 5 + 2) - 3.0, c: sched_value(0, c * 5 + 3), v: 10.0 }, scalar: c % 3 != 2 }));
+            }
+            Case { cfg: cfg_small(kind, n), ops }
         },
         &check,
     );
